@@ -143,7 +143,12 @@ pub struct Layout {
     pub out_file: PathBuf,
 }
 
+/// Paths as the compiler sees them: relative to the run root (the sandbox's parent), which
+/// is the working directory during an execution. Absolute sandbox paths contain a process
+/// id, and path strings end up as hash-map keys inside the compiler; relative ones make an
+/// execution a function of its plan alone.
 pub fn layout(plan: &Plan, sandbox: &Path) -> Layout {
+    let sandbox = Path::new(sandbox.file_name().expect("sandbox name"));
     let build_dir = sandbox.join("build");
     let out_file = if plan.options.output_in_ir_dir {
         build_dir.join("font.ttf")
@@ -157,7 +162,7 @@ pub fn layout(plan: &Plan, sandbox: &Path) -> Layout {
     } else if plan.source.starts_with('/') {
         PathBuf::from(&plan.source)
     } else if plan.faults.iter().any(|f| f.kind.starts_with("src-")) {
-        TREE_ROOT.get().expect("a private tree for stored-byte faults").join(&plan.source)
+        Path::new("tree").join(&plan.source)
     } else {
         testdata().join(&plan.source)
     };
@@ -196,6 +201,7 @@ fn list_files(dir: &Path, base: &Path, out: &mut Vec<String>) {
 pub fn execute(plan: &Plan, sandbox: &Path, verbose: bool) -> ExecRecord {
     let lay = layout(plan, sandbox);
     std::fs::create_dir_all(sandbox).ok();
+    std::env::set_current_dir(sandbox.parent().expect("run root")).expect("enter the run root");
     if plan.options.emit_timing {
         // the CLI's build directory normally exists because the default output lives in it
         std::fs::create_dir_all(&lay.build_dir).ok();
